@@ -41,7 +41,14 @@ type tbInst struct {
 
 // render one package from instances; returns co source, ref source, main source
 func tbRender(pkg string, insts []tbInst, fuel, pulls int) (co, ref, main string, errs []string) {
+	co, ref, main, _, errs = tbRenderAll(pkg, insts, fuel, pulls)
+	return
+}
+
+// tbRenderAll: as tbRender, plus the sibling files (name -> content) of templates that have one
+func tbRenderAll(pkg string, insts []tbInst, fuel, pulls int) (co, ref, main string, sibs map[string]string, errs []string) {
 	var cb, rb, mb strings.Builder
+	sibs = map[string]string{}
 	// extra imports of the templates of this package (Template.Imports: `"a"; "b"`), each once, with a blank use
 	extra, seenImp := "", map[string]bool{}
 	for _, in := range insts {
@@ -65,6 +72,15 @@ func tbRender(pkg string, insts []tbInst, fuel, pulls int) (co, ref, main string
 		cb.WriteString("\n")
 		rb.WriteString(r)
 		rb.WriteString("\n")
+		if in.t.Sibling != "" {
+			sc, e3 := tb.Render(in.t.Sibling, in.prefix, false, "co")
+			sr, e4 := tb.Render(in.t.Sibling, in.prefix, true, "co")
+			errs = append(errs, e3...)
+			errs = append(errs, e4...)
+			sibs["sib_"+in.prefix+".go"] = "package " + pkg + "\n\nimport \"scratch/vm\"\n\nvar _ = vm.E\n" + sc
+			rb.WriteString(sr)
+			rb.WriteString("\n")
+		}
 		for di, d := range in.t.Drives {
 			call := strings.ReplaceAll(d.Call, "@", in.prefix)
 			for _, w := range []struct{ tag, pkg string }{{"C", "out"}, {"T", "tmp"}} {
@@ -92,7 +108,7 @@ func tbRender(pkg string, insts []tbInst, fuel, pulls int) (co, ref, main string
 		}
 	}
 	mb.WriteString("}\n")
-	return cb.String(), rb.String(), mb.String(), errs
+	return cb.String(), rb.String(), mb.String(), sibs, errs
 }
 
 // tbrun: compile, build and run the template programs; writes tb.jsonl
@@ -119,7 +135,7 @@ func tbrun(args []string) {
 
 	var runPkg func(pkg string, insts []tbInst)
 	runPkg = func(pkg string, insts []tbInst) {
-		co, ref, main, errs := tbRender(pkg, insts, fuel, pulls)
+		co, ref, main, sibs, errs := tbRenderAll(pkg, insts, fuel, pulls)
 		fail := func(status, msg string) {
 			if len(insts) > 1 {
 				// bisect: halve the package until the failing templates stand alone
@@ -142,6 +158,9 @@ func tbrun(args []string) {
 		keep := filepath.Join(mod, "tmp", pkg)
 		os.MkdirAll(src, 0o755)
 		os.WriteFile(filepath.Join(src, "gen.go"), []byte(co), 0o644)
+		for name, content := range sibs {
+			os.WriteFile(filepath.Join(src, name), []byte(content), 0o644)
+		}
 		cmd := exec.Command(self, "compile-one", "-src", src, "-dst", dst)
 		cmd.Dir = mod
 		cmd.Env = append(os.Environ(), "VERIF_KEEP_TMP="+keep)
